@@ -93,7 +93,7 @@ class C17(Prop):
     anchors = ["aioswitcher.bridge:SwitcherBridge.start", "aioswitcher.bridge:SwitcherBridge.stop",
                "aioswitcher.bridge:SwitcherBridge.__aenter__", "aioswitcher.bridge:SwitcherBridge.__aexit__"]
     min_evaluations = {"quick": 15_000, "thorough": 150_000}
-    budget_s = {"quick": 90, "thorough": 900}
+    budget_s = {"quick": 300, "thorough": 900}
 
     def selftest(self):
         broadcast_captures()
@@ -450,6 +450,10 @@ class C17(Prop):
                 s.close()
             await asyncio.sleep(0)
             await asyncio.sleep(0)
+            if any(isinstance(p, int) and 0 < p < 65536 and not udp.can_bind(p) for p in ports):
+                # already reported above; do not let the leak starve the following cases of ports
+                acc.count("leaked_sockets_reclaimed_by_the_harness", udp.reclaim_leaked_datagram_sockets(ports))
+                await asyncio.sleep(0)
         bind_failure = any(t.endswith("raised OSError") for t in trace)
         restart = sum(1 for t in trace if t in ("start ok", "ctx_ok entered", "ctx_exc entered")) >= 2
         if bind_failure or restart or "ctx_exc" in history or must_not_deliver:
